@@ -140,6 +140,17 @@ Stop ==
   /\ last' = [op |-> "stop"]
   /\ UNCHANGED <<stypes, queue, nposted, inflight, posted, got, nrecv, must>>
 
+(* Stop closes the registered subscriptions one after the other under the dispatcher lock; a post that took its *)
+(* snapshot before goes on delivering meanwhile (deliveries do not take that lock), so it can skip a receiver     *)
+(* that Stop has closed and still reach one that Stop has not closed yet. StopCloseOne is one such close; Stop   *)
+(* completes the call (closes the rest, clears the registry, sets the flag).                                     *)
+StopCloseOne(s) ==
+  /\ ~Atomic /\ ~stopped /\ (\E t \in Types : InSeq(subm[t], s)) /\ ~chClosed[s]
+  /\ st' = [st EXCEPT ![s] = "closed"]
+  /\ chClosed' = [chClosed EXCEPT ![s] = TRUE]
+  /\ last' = [op |-> "stopclose", s |-> s]
+  /\ UNCHANGED <<subm, stopped, stypes, queue, nposted, inflight, posted, got, nrecv, must>>
+
 (* A non-blocking receive on Subscription.Chan() *)
 Recv(s) ==
   /\ Idle /\ st[s] # "new" /\ nrecv < MaxRecv
@@ -156,7 +167,7 @@ Next ==
   \/ \E s \in Subs, ts \in SUBSET Types : Subscribe(s, ts)
   \/ \E c \in Callers, t \in Types : PostBegin(c, t, nposted + 1)
   \/ \E c \in Callers : PostDeliver(c) \/ PostEnd(c)
-  \/ \E s \in Subs : Unsubscribe(s) \/ UnsubDel(s) \/ UnsubClose(s) \/ Recv(s)
+  \/ \E s \in Subs : Unsubscribe(s) \/ UnsubDel(s) \/ UnsubClose(s) \/ Recv(s) \/ StopCloseOne(s)
   \/ Stop
 
 Spec == Init /\ [][Next]_vars
